@@ -8,7 +8,8 @@
 From Coq Require Import Ascii String List Bool Arith NArith ZArith Lia Sorting.Sorted.
 From A2L Require Import Base.StableSort Text.Escape Text.IntText Lex.Tokenizer Gram.Spec A2ml.Types Gram.PState Gram.Parser Gram.Writer Gram.TokWriter
   Proofs.LayoutProofs Proofs.LexUnitsProofs Proofs.WriterUnitsProofs Proofs.CursorProofs Proofs.RoundTripProofs Proofs.LineOffsetProofs
-  Proofs.ParseTraceProofs Proofs.LinePreservationProofs Proofs.IfdataFollowProofs Proofs.IfdataTextProofs Proofs.IfdataLinesProofs Proofs.IfdataWriteLinesProofs.
+  Proofs.ParseTraceProofs Proofs.LinePreservationProofs Proofs.IfdataFollowProofs Proofs.IfdataTextProofs Proofs.IfdataLinesProofs Proofs.IfdataWriteLinesProofs
+  Proofs.IfdataTraceProofs Proofs.IfdataWriteAnyProofs Proofs.IfdataShapeProofs.
 Import ListNotations.
 Local Open Scope N_scope.
 
@@ -43,5 +44,39 @@ Section IfdLines.
     clear - Hrel. revert Hrel. generalize ts. induction toks' as [|t' r IH]; intros l H; destruct l as [|t q]; try discriminate; [constructor|].
     cbn [map] in H. injection H as H1 H2. constructor; [exact H1 | apply IH; exact H2].
   Qed.
+
+  (** the same without a conformance premise: whatever the typed parser returned from a run that reports nothing is written, token by
+      token, as it was read ([reads_as]) and on the lines it was read from *)
+  Theorem ifdata_read_write_scan f F ty c s g s' indent :
+    c_fileid c = O -> Inv s -> first_ok s -> ps_ftab s = ftab -> (ty_depth ty <= F)%nat ->
+    parse_ifdata_item F ty c s = (ROk g, s') -> ps_log s' = ps_log s -> ps_after s' <> [] ->
+    (gdepth g <= f)%nat -> Forall token_text (ftoks ftab g) ->
+    exists ts toks',
+      adv ts s s' /\
+      tokenize_core 0 (gifd_write ftab names f g indent) = TOk toks' /\
+      Forall2 (reads_as ftab) ts (map shape_of toks') /\
+      (inline (prevl s) ts (goffs g) -> Forall2 (fun t' t => tk_line t' + prevl s = tk_line t + 1) toks' ts).
+  Proof.
+    intros Hc I Hfo Hf HF E L Hne Hd Htt.
+    destruct (typed_ifdata_offsets_are_line_differences F ty c Hc HF s g s' I Hfo E L Hne) as (ts & A & Ln).
+    destruct (typed_ifdata_is_written_as_it_was_read ftab F ty c Hc HF s g s' I Hf E L) as (ts0 & A0 & R0).
+    assert (Ets : ts0 = ts).
+    { pose proof (adv_after _ _ _ A) as Q1. pose proof (adv_after _ _ _ A0) as Q2. rewrite Q1 in Q2. apply app_inv_tail in Q2. symmetry. exact Q2. }
+    subst ts0.
+    pose proof (typed_ifdata_result_shape F ty c Hc HF s g s' I E) as Hw.
+    destruct (gifd_write_any ftab names f g indent (or_intror Hw) Hd) as (us & o' & Et & Ex & M & W & Nn).
+    assert (Htu : Forall token_text (usnd us)) by (rewrite M; exact Htt).
+    destruct (Nn eq_refl Htu) as [_ Mn].
+    destruct (tokenize_units_lines 0 us (units_all_ok' us W Htu)) as (toks' & E1 & M1 & L1).
+    exists ts, toks'. split; [exact A|]. split; [rewrite Et, (finish_extends us _ Ex); exact E1|].
+    split; [change (map shape_of toks') with (map tshape toks'); rewrite M1; change (map snd us) with (usnd us); rewrite M; exact R0|].
+    intros Hin.
+    pose proof (lines_cums _ _ _ Ln Hin (adv_mono _ _ _ I A)) as Hlines.
+    assert (Hrel : map (fun x => x + prevl s) (map tk_line toks') = map (fun x => x + 1) (map tk_line ts)).
+    { rewrite L1, ulines_cums, Mn, Hlines, !cums_shift. f_equal. lia. }
+    clear - Hrel. revert Hrel. generalize ts. induction toks' as [|t' r IH]; intros l H; destruct l as [|t q]; try discriminate; [constructor|].
+    cbn [map] in H. injection H as H1 H2. constructor; [exact H1 | apply IH; exact H2].
+  Qed.
 End IfdLines.
 Print Assumptions ifdata_lines_preserved.
+Print Assumptions ifdata_read_write_scan.
